@@ -431,52 +431,65 @@ func c12Add(c *Ctx) {
 	}
 	c.Analysed(p.FName(add))
 	n := 0
+	// Add and the helpers of its package it calls (a step of Add that was given a name)
+	family := []*ssa.Function{add}
 	for _, b := range add.Blocks {
 		for _, in := range b.Instrs {
-			cv, ok := in.(*ssa.Convert)
-			if !ok || intWidth(cv.Type()) != 32 || intWidth(cv.X.Type()) != 64 {
-				continue
-			}
-			// uint32(len(blob)) is out of the rule's domain
-			if call, ok := cv.X.(*ssa.Call); ok {
-				if bi, ok := call.Call.Value.(*ssa.Builtin); ok && bi.Name() == "len" {
-					continue
+			if ci, ok := in.(ssa.CallInstruction); ok {
+				if g := ci.Common().StaticCallee(); g != nil && pkgOf(g) == pkgOf(add) && len(g.Blocks) > 0 && g != add {
+					family = append(family, g)
 				}
 			}
-			if cvx, ok := cv.X.(*ssa.Convert); ok {
-				if call, ok := cvx.X.(*ssa.Call); ok {
+		}
+	}
+	for _, add := range family {
+		for _, b := range add.Blocks {
+			for _, in := range b.Instrs {
+				cv, ok := in.(*ssa.Convert)
+				if !ok || intWidth(cv.Type()) != 32 || intWidth(cv.X.Type()) != 64 {
+					continue
+				}
+				// uint32(len(blob)) is out of the rule's domain
+				if call, ok := cv.X.(*ssa.Call); ok {
 					if bi, ok := call.Call.Value.(*ssa.Builtin); ok && bi.Name() == "len" {
 						continue
 					}
 				}
+				if cvx, ok := cv.X.(*ssa.Convert); ok {
+					if call, ok := cvx.X.(*ssa.Call); ok {
+						if bi, ok := call.Call.Value.(*ssa.Builtin); ok && bi.Name() == "len" {
+							continue
+						}
+					}
+				}
+				n++
+				x := cv.X
+				g := Guard{Name: "x <= uint32Max", Match: func(f Fact) bool {
+					bo, ok := f.V.(*ssa.BinOp)
+					if !ok {
+						return false
+					}
+					k, isK := constInt(bo.Y)
+					if !isK || k != 0xffffffff {
+						return false
+					}
+					if bo.X != x && !dependsOn(x, func(y ssa.Value) bool { return y == bo.X }) && !dependsOn(bo.X, func(y ssa.Value) bool { return y == x }) {
+						return false
+					}
+					t := f.Kind == IsTrue
+					switch bo.Op {
+					case token.LEQ:
+						return t
+					case token.GTR:
+						return !t
+					case token.LSS:
+						return t
+					}
+					return false
+				}}
+				missing, path := p.unguardedFromEntry(add, cv, g)
+				c.Check(len(missing) == 0, "R12d", fmt.Sprintf("(*lib/binpatch.PatchSet).Add uint32(%s)#%d", short(x.Name(), 12), n), p.Pos(cv.Pos()), "narrowing only after comparison with uint32Max", "an int64 size is narrowed to uint32 without a comparison against uint32Max: ranges over 4 GiB are silently truncated", path...)
 			}
-			n++
-			x := cv.X
-			g := Guard{Name: "x <= uint32Max", Match: func(f Fact) bool {
-				bo, ok := f.V.(*ssa.BinOp)
-				if !ok {
-					return false
-				}
-				k, isK := constInt(bo.Y)
-				if !isK || k != 0xffffffff {
-					return false
-				}
-				if bo.X != x && !dependsOn(x, func(y ssa.Value) bool { return y == bo.X }) && !dependsOn(bo.X, func(y ssa.Value) bool { return y == x }) {
-					return false
-				}
-				t := f.Kind == IsTrue
-				switch bo.Op {
-				case token.LEQ:
-					return t
-				case token.GTR:
-					return !t
-				case token.LSS:
-					return t
-				}
-				return false
-			}}
-			missing, path := p.unguardedFromEntry(add, cv, g)
-			c.Check(len(missing) == 0, "R12d", fmt.Sprintf("(*lib/binpatch.PatchSet).Add uint32(%s)#%d", short(x.Name(), 12), n), p.Pos(cv.Pos()), "narrowing only after comparison with uint32Max", "an int64 size is narrowed to uint32 without a comparison against uint32Max: ranges over 4 GiB are silently truncated", path...)
 		}
 	}
 	c.Check(n >= 3, "R12d", "(*lib/binpatch.PatchSet).Add narrowings found", p.Pos(add.Pos()), "", fmt.Sprintf("%d int64->uint32 narrowings found, expected 3", n))
@@ -531,15 +544,47 @@ func c12InPlace(c *Ctx) {
 		}
 		return (bo.Op == token.NEQ && f.Kind == IsFalse) || (bo.Op == token.EQL && f.Kind == IsTrue)
 	}}
+	// the eligibility tests sit in Apply itself, or in a helper of the package that Apply asks
+	// ("can this be done in place, and how long is the file afterwards?")
+	host, via := ap, ssa.CallInstruction(nil)
+	if len(passEdges(ap, samesize)) == 0 {
+		for _, b := range ap.Blocks {
+			for _, in := range b.Instrs {
+				ci, ok := in.(ssa.CallInstruction)
+				if !ok {
+					continue
+				}
+				g := ci.Common().StaticCallee()
+				if g == nil || pkgOf(g) != pkgOf(ap) || len(g.Blocks) == 0 || g == rw {
+					continue
+				}
+				if len(passEdges(g, samesize)) > 0 && via == nil {
+					host, via = g, ci
+				}
+			}
+		}
+	}
+	// a value of the helper that is one of its parameters stands for what Apply passed
+	actual := func(v ssa.Value) ssa.Value {
+		if pa, ok := v.(*ssa.Parameter); ok && via != nil {
+			for k, hp := range host.Params {
+				if hp == pa && k < len(via.Common().Args) {
+					return via.Common().Args[k]
+				}
+			}
+		}
+		return v
+	}
+	isFileSize := func(v ssa.Value) bool {
+		call, ok := actual(stripIntConv(v)).(*ssa.Call)
+		return ok && strings.HasSuffix(p.calleeName(call.Common()), ".Size")
+	}
 	atEOF := Guard{Name: "oldEnd==file size", Match: func(f Fact) bool {
 		bo, ok := f.V.(*ssa.BinOp)
 		if !ok {
 			return false
 		}
-		isSize := func(v ssa.Value) bool {
-			call, ok := v.(*ssa.Call)
-			return ok && strings.HasSuffix(p.calleeName(call.Common()), ".Size")
-		}
+		isSize := isFileSize
 		isEnd := func(v ssa.Value) bool {
 			return dependsOn(v, func(x ssa.Value) bool { return isField(x, "Offset") }) && dependsOn(v, func(x ssa.Value) bool { return isField(x, "OldSize") })
 		}
@@ -551,31 +596,65 @@ func c12InPlace(c *Ctx) {
 	// the first loop's body: blocks from which both a Field load OldSize compare happen… take
 	// the blocks containing the samesize test as loop bodies
 	var bodies []*ssa.BasicBlock
-	for e := range passEdges(ap, samesize) {
-		bodies = append(bodies, ap.Blocks[e.from])
+	for e := range passEdges(host, samesize) {
+		bodies = append(bodies, host.Blocks[e.from])
 	}
 	var sinks []ssa.CallInstruction
-	for _, ci := range p.callsIn(ap, "(*os.File).WriteAt", "(*os.File).Truncate") {
-		sinks = append(sinks, ci)
+	site := p.applyInPlaceSite()
+	if site != nil {
+		sinks = site.sinks
 	}
-	if len(bodies) == 0 || len(sinks) == 0 {
+	// in a helper, "go ahead in place" is a return whose boolean result can be true
+	var sinkBlocks []*ssa.BasicBlock
+	okIdx := -1
+	if via == nil {
+		for _, s := range sinks {
+			sinkBlocks = append(sinkBlocks, s.Block())
+		}
+	} else {
+		res := host.Signature.Results()
+		for i := 0; i < res.Len(); i++ {
+			if isBool(res.At(i).Type()) {
+				okIdx = i
+			}
+		}
+		for _, r := range returnsOf(host) {
+			if okIdx < 0 || okIdx >= len(r.Results) {
+				continue
+			}
+			if b, isK := boolConst(retVal(r, okIdx)); isK && !b {
+				continue
+			}
+			sinkBlocks = append(sinkBlocks, r.Block())
+		}
+		// and Apply writes in place only when the helper said so
+		yes := Guard{Name: "the helper's verdict is true", Match: func(f Fact) bool {
+			ex, ok := f.V.(*ssa.Extract)
+			return ok && f.Kind == IsTrue && ex.Tuple == via.Value() && ex.Index == okIdx
+		}}
+		for i, sk := range sinks {
+			missing, path := p.unguardedFromEntry(ap, sk, yes)
+			c.Check(len(missing) == 0 && okIdx >= 0, c12RuleInPlace, fmt.Sprintf("(*lib/binpatch.PatchSet).Apply in-place write#%d behind the eligibility helper", i+1), p.Pos(sk.Pos()), "only when "+p.FName(host)+" answered true", "the input file is modified in place on a path on which the eligibility helper did not answer true", path...)
+		}
+	}
+	if len(bodies) == 0 || len(sinks) == 0 || len(sinkBlocks) == 0 {
 		c.Fail(c12RuleInPlace, "(*lib/binpatch.PatchSet).Apply eligibility loop", p.Pos(ap.Pos()), "the size-preservation test (OldSize == NewSize) or the in-place writes were not found")
 	} else {
 		check := func(label string, gs ...Guard) {
 			del := map[edge]bool{}
 			for _, g := range gs {
-				for e := range passEdges(ap, g) {
+				for e := range passEdges(host, g) {
 					del[e] = true
 				}
 			}
 			pred := map[int]int{}
-			seen := reach(ap, bodies, del, pred)
+			seen := reach(host, bodies, del, pred)
 			bad := false
 			var path []string
-			for _, s := range sinks {
-				if seen[s.Block().Index] {
+			for _, sb := range sinkBlocks {
+				if seen[sb.Index] {
 					bad = true
-					path = p.witness(ap, pred, s.Block().Index)
+					path = p.witness(host, pred, sb.Index)
 				}
 			}
 			c.Check(!bad, c12RuleInPlace, "(*lib/binpatch.PatchSet).Apply in-place requires "+label, p.Pos(sinks[0].Pos()), "every loop path to the in-place writes passes "+label, "the in-place writes are reachable for a patch that is neither size-preserving nor ("+label+")", path...)
@@ -594,18 +673,32 @@ func c12InPlace(c *Ctx) {
 		}
 	}
 	// Truncate size is either the original size or Offset+NewSize of the last patch
-	for _, ci := range p.callsIn(ap, "(*os.File).Truncate") {
-		ok := true
-		for _, lf := range phiLeaves(ci.Common().Args[1], nil, map[*ssa.Phi]bool{}) {
-			if call, isCall := lf.V.(*ssa.Call); isCall && strings.HasSuffix(p.calleeName(call.Common()), ".Size") {
-				continue
+	if site != nil {
+		for _, tr := range site.truncs {
+			ok := true
+			args := tr.call.Common().Args
+			for _, fv := range site.expand(fnVal{tr.fn, args[len(args)-1]}) {
+				if _, isPhi := fv.v.(*ssa.Phi); isPhi {
+					continue
+				}
+				lv := fv.v
+				if call, isCall := lv.(*ssa.Call); isCall && strings.HasSuffix(p.calleeName(call.Common()), ".Size") {
+					continue
+				}
+				if isFileSize(lv) {
+					continue
+				}
+				if k, isK := constInt(lv); isK && k == 0 {
+					// the size of a refusal (`return 0, false`), never used for truncating
+					continue
+				}
+				if dependsOn(lv, func(x ssa.Value) bool { return isField(x, "Offset") }) && dependsOn(lv, func(x ssa.Value) bool { return isField(x, "NewSize") }) {
+					continue
+				}
+				ok = false
 			}
-			if dependsOn(lf.V, func(x ssa.Value) bool { return isField(x, "Offset") }) && dependsOn(lf.V, func(x ssa.Value) bool { return isField(x, "NewSize") }) {
-				continue
-			}
-			ok = false
+			c.Check(ok, c12RuleInPlace, "(*lib/binpatch.PatchSet).Apply truncate size", p.Pos(tr.call.Pos()), "final size = old size, or Offset+NewSize of the last patch", "the file is truncated to a size that is neither the old size nor the end of the last patch")
 		}
-		c.Check(ok, c12RuleInPlace, "(*lib/binpatch.PatchSet).Apply truncate size", p.Pos(ci.Pos()), "final size = old size, or Offset+NewSize of the last patch", "the file is truncated to a size that is neither the old size nor the end of the last patch")
 	}
 	// rewrite path: out-of-order patches rejected before copying; goes through atomicfile
 	ordered := Guard{Name: "delta>=0", Match: func(f Fact) bool {
